@@ -51,7 +51,8 @@ func readOnlyLib(name string) bool {
 		return true
 	}
 	switch name {
-	case "encoding/json.Marshal", "encoding/asn1.Marshal", "encoding/asn1.MarshalWithParams", "bytes.Equal", "bytes.Index", "bytes.IndexByte", "bytes.IndexRune", "bytes.Contains",
+	case "encoding/json.Marshal", "encoding/json.MarshalIndent", "(*encoding/json.Encoder).Encode", "reflect.DeepEqual", "bytes.Compare", "bytes.HasPrefix", "bytes.HasSuffix", "bytes.Clone", "slices.Clone", "slices.Contains", "slices.Index", "slices.Equal",
+		"encoding/asn1.Marshal", "encoding/asn1.MarshalWithParams", "bytes.Equal", "bytes.Index", "bytes.IndexByte", "bytes.IndexRune", "bytes.Contains",
 		"(encoding/asn1.ObjectIdentifier).Equal", "(encoding/asn1.ObjectIdentifier).String", "(crypto/x509/pkix.RDNSequence).String", "(error).Error",
 		"(encoding/asn1.BitString).At", "crypto/x509.MarshalPKCS1PublicKey", "crypto/x509.MarshalPKCS1PrivateKey", "crypto/elliptic.Marshal",
 		"(crypto/elliptic.Curve).Params", "(crypto/elliptic.Curve).IsOnCurve", "github.com/keybase/go-crypto/openpgp/ecdh.Marshal", "github.com/ghodss/yaml.Marshal":
@@ -495,6 +496,98 @@ func ruleLintReuse(c *Ctx, r *Rep) {
 				r.Bad(key, c.Pos(ci.Pos()), "a copy of the bytes (or marshal them at once)", "Bytes() of a buffer is stored while the buffer is reset or written again later: the stored bytes are overwritten")
 			} else {
 				r.Ok(key, c.Pos(ci.Pos()), "buffer not modified after its bytes were handed on", "ok")
+			}
+		}
+	}
+	// (c) the same across calls: a module function that writes into a *bytes.Buffer it is given and hands back Bytes()
+	// of it; a caller that keeps the result of one call while it calls such a function again with the same buffer
+	type bufFn struct{ param, result int }
+	bufFns := map[*ssa.Function]bufFn{}
+	for _, f := range c.Funcs {
+		for i, p := range f.Params {
+			if typeShort(c, p.Type()) != "*bytes.Buffer" {
+				continue
+			}
+			resIdx := -1
+			for _, ret := range returnsOf(f) {
+				for k, rv := range retResults(ret) {
+					if call, ok := rv.(*ssa.Call); ok && calleeFullName(call) == "(*bytes.Buffer).Bytes" && call.Call.Args[0] == ssa.Value(p) {
+						resIdx = k
+					}
+				}
+			}
+			if resIdx < 0 {
+				continue
+			}
+			writes := false
+			if p.Referrers() != nil {
+				for _, u := range *p.Referrers() {
+					switch x := u.(type) {
+					case *ssa.Call:
+						name := calleeFullName(x)
+						if name == "(*bytes.Buffer).Bytes" || name == "(*bytes.Buffer).Len" || name == "(*bytes.Buffer).String" || name == "(*bytes.Buffer).Cap" {
+							continue
+						}
+						writes = true
+					case *ssa.MakeInterface, *ssa.ChangeInterface:
+						writes = true // handed on as an io.Writer
+					}
+				}
+			}
+			if writes {
+				bufFns[f] = bufFn{i, resIdx}
+			}
+		}
+	}
+	for _, fn := range c.Funcs {
+		var calls []*ssa.Call
+		for _, ci := range callsIn(fn) {
+			if call, ok := ci.(*ssa.Call); ok {
+				if _, is := bufFns[call.Call.StaticCallee()]; is {
+					calls = append(calls, call)
+				}
+			}
+		}
+		for _, c1 := range calls {
+			b1 := bufFns[c1.Call.StaticCallee()]
+			var kept ssa.Value = c1
+			if c1.Call.Signature().Results().Len() > 1 {
+				kept = nil
+				if c1.Referrers() != nil {
+					for _, u := range *c1.Referrers() {
+						if ex, ok := u.(*ssa.Extract); ok && ex.Index == b1.result {
+							kept = ex
+						}
+					}
+				}
+			}
+			if kept == nil || kept.Referrers() == nil {
+				continue
+			}
+			n++
+			bad := ""
+			for _, c2 := range calls {
+				if c2 == c1 && !inLoop(c1.Block()) {
+					continue
+				}
+				b2 := bufFns[c2.Call.StaticCallee()]
+				if c2.Call.Args[b2.param] != c1.Call.Args[b1.param] || !canReachInstr(c1, c2) {
+					continue
+				}
+				for _, u := range *kept.Referrers() {
+					if _, dbg := u.(*ssa.DebugRef); dbg {
+						continue
+					}
+					if canReachInstr(c2, u) && (c2 != c1 || u.Block() != c1.Block()) {
+						bad = c.Pos(c2.Pos())
+					}
+				}
+			}
+			key := "buffer-bytes-kept-across-call|" + c.FuncKey(fn) + "|" + c.Pos(c1.Pos())
+			if bad != "" {
+				r.Bad("buffer-bytes-kept-across-call|"+c.FuncKey(fn), c.Pos(c1.Pos()), "a copy of the bytes, or a buffer per value", "the bytes handed back by "+c.FuncKey(c1.Call.StaticCallee())+" alias the buffer, which the call at "+bad+" overwrites while they are still used")
+			} else {
+				r.Ok(key, c.Pos(c1.Pos()), "result not used after the buffer is written again", "ok")
 			}
 		}
 	}
